@@ -4,6 +4,7 @@ import Txtpp.Model.Tag
 import Txtpp.Model.Project
 import Txtpp.Model.Safe
 import Txtpp.Model.Cli
+import Txtpp.Model.Shell
 import Txtpp.Model.CoordSim
 open Driver Txt
 
@@ -222,6 +223,11 @@ def handle (line : String) : String :=
         let t (x : Bool) := if x then "t" else "f"
         s!"{m} {t c.trailingNewline} {t c.recursive} {c.numThreads} {v} {",".intercalate (c.inputs.map hex)}"
     | _, _, _, _ => "bad-field"
+  | ["shell", sh, cmd] =>
+    -- the argument vector after the executable (`Shell::new` + `Shell::run`)
+    match unhex sh, unhex cmd with
+    | some sh, some cmd => ",".intercalate ((shellArgv sh cmd).tail.map hex)
+    | _, _ => "bad-field"
   | ["safe", mode, base, tree, cmds] =>
     -- on how many txtpp sources of the tree the side condition of the pass-level theorems (C06/C08/C09) holds
     match modeOf mode, unhex base, parseTree (splitList tree), parseCmds (splitList cmds) with
